@@ -48,7 +48,12 @@ def run(ctx):
     ctx.rule = ("histories of 1-30 public mutator calls (all bulk formats, explicit/auto ids, weak/strong removal, "
                 "None / missing / duplicate ids) on xgi.Hypergraph from one PRNG; non-trivial = distinct projected state "
                 "with an edge of >=2 members after >=2 op kinds")
-    dis, hist = run_sm(ctx, M, "HG", FIELDS, pred, ctx.n(300, 12000), derive=derive,
+    extra = []
+    if not ctx.quick:
+        extra = list(M.exhaustive_histories(4))
+        ctx.exhaustive = True
+        ctx.extra["exhaustive_space"] = f"all {len(extra)} op sequences of length <= 4 over the 14-op alphabet of hg.small_alphabet() (correspondence + predicate)"
+    dis, hist = run_sm(ctx, M, "HG", FIELDS, pred, ctx.n(300, 12000), derive=derive, extra_histories=extra,
                        corr_name="correspondence HG~Hypergraph (incidence projection)")
     if (dis or not ok) and not ctx.violations:
         targeted_search(ctx, M, pred, dis, hist, n=ctx.n(1500, 20000), derive=derive)
